@@ -518,6 +518,44 @@ def run(ctx):
             r.ok("%s: values are serialised as a whole (%s)" % (f.short, ", ".join(sorted({norm(c.func) for c in q.calls(f)}))[:60]))
     if n10 == 0:
         r.vacuous_ok = True
+    # ---------------------------------------------------------------- R11
+    r = ctx.rule("C13-R11", "ORDER", "help for a command is rendered whatever the rest of the line lacks: the lenient mode that the help resolver switches on applies to the parse whose "
+                 "result it hands on - a resolve result memoises its parse, so the result passed on after the switch is one created after the switch, not the one that was "
+                 "already parsed (strictly) while the command was being resolved", reference=1)
+    rr_cls = ctx.cls("clikit.resolver.resolve_result.ResolveResult")
+    memo = any(isinstance(n, ast.Assign) and any(is_self_attr(t) for t in n.targets) and isinstance(n.value, ast.Constant) and n.value.value is True for m_ in rr_cls.methods.values() for n in walk_no_nested(m_.node))
+    n11 = 0
+    for fi in p.all_functions():
+        if fi.module.name.startswith(("clikit.api.config", "clikit.config")):
+            continue
+        sw = [c for c in q.method_calls(fi, "enable_lenient_args_parsing")]
+        if not sw:
+            continue
+        fcfg = ctx.cfg(fi)
+        sw_ids = {n.id for c in sw for n in fcfg.nodes_of(c)}
+        for cs in ctx.cg.sites_in(fi):
+            if cs.kind != "super" and not any(t.name == "create_resolved_command" for t in cs.targets):
+                continue
+            for a in cs.node.args:
+                if not isinstance(a, ast.Name):
+                    continue
+                t = ctx.typer.expr_type(a, fi)
+                if rr_cls not in t.classes and a.id not in fi.params:
+                    continue
+                n11 += 1
+                defs = [w for w in fcfg.writes(lambda tx, nm=a.id: tx == nm)]
+                fresh_after = [w for w in defs if isinstance(w.ast, ast.Assign) and isinstance(w.ast.value, ast.Call) and norm(w.ast.value.func).endswith("ResolveResult") and any(fcfg.dominates(x, w.id) for x in sw_ids)]
+                use_nodes = fcfg.nodes_of(cs.node)
+                ok_ = bool(fresh_after) and all(any(fcfg.dominates(w.id, u.id) for w in fresh_after) for u in use_nodes)
+                if ok_ or not memo:
+                    r.ok("%s: the result handed on is parsed after the switch" % fi.short)
+                else:
+                    r.fail(fi, cs.node, "%s hands on a result parsed before the switch" % fi.name, "%s switches the command to lenient parsing and then hands on `%s`, a resolve result that was created - and already parsed, "
+                           "strictly, by the 'first parsable default' search - before the switch; the memoised strict error is raised: `help <cmd>` and `<cmd> --help` fail with "
+                           "'Not enough arguments' for a command whose default sub-command has a required argument" % (fi.short, a.id))
+    if n11 == 0:
+        r.vacuous_ok = True
+
     ctx.borrow("c17", "C17-R3", "C13-R8", "'help <path>' shows the page of <path>: the help resolver removes exactly the leading help token (position 0, put back on every exit) and no "
                "other occurrence - a sub-command that is itself called 'help' stays in the path")
     return ctx.results
